@@ -157,11 +157,13 @@ Section Sem.
 Variable lit : string -> outcome litres.
 Variable re_search : string -> string -> outcome reres.
 Variable nstr : node -> string.
-(* strict = true: the situations of the listed findings are marked SOut
-   instead of being given their documented meaning (F12a: a search attribute
-   path reaching several nodes below one candidate; F29: `*` before another
-   segment over a set).  [sem] is the documented meaning (strict = false);
-   [sem_strict] is the computable guard of the _partial theorem. *)
+(* strict = true: the situations of the listed finding F12a (a search attribute
+   path reaching several nodes below one candidate) are marked SOut instead of
+   being given their documented meaning.  [sem] is the documented meaning
+   (strict = false); [sem_strict] is the computable guard of the _partial
+   theorem.  (F29 -- `*` before another segment over a set -- was marked too
+   until the code was repaired; `*` now has its documented meaning on sets in
+   both readings.) *)
 Variable strict : bool.
 
 (* what the comparison sees of a node *)
@@ -243,8 +245,7 @@ Definition seg_sem (es : seg) (attr_sem : node -> list selres) (last : bool)
   | (Some TSearch, ASearch inv m attr term) => flat_map cont (sel_search attr_sem tl inv m attr term n)
   | (Some TMatchAll, _) =>
       (* every immediate child; with a following segment, those on which it selects *)
-      if strict && negb last && match n with NSet _ (_ :: _) => true | _ => false end then [SOut]
-      else flat_map cont (map SNode (sel_children n))
+      flat_map cont (map SNode (sel_children n))
   | (Some TTraverse, _) =>
       if last then map SNode (leaf_nodes n)
       else flat_map (k false) (desc_or_self n)       (* the filter applies without list pass-through *)
